@@ -811,6 +811,24 @@ impl Gen {
                 _ => self.r.below(256) as u8,
             };
         }
+        // a well-formed target list whose entity has boundary index / generation varints
+        if self.r.chance(12) {
+            let gener = self.r.pick(&[0x7fff_fffeu32, 0x7fff_ffff, 0x8000_0000, 0xefff_ffff, 0xffff_fffe, 0xffff_ffff]);
+            let idx = self.r.pick(&[1u64, 0x7fff_ffff, 0xffff_ffff, 0x1_0000_0000, u64::MAX >> 1]);
+            bytes = vec![1];
+            let mut put = |mut x: u64, out: &mut Vec<u8>| loop {
+                let b = (x & 0x7f) as u8;
+                x >>= 7;
+                if x == 0 {
+                    out.push(b);
+                    break;
+                }
+                out.push(b | 0x80);
+            };
+            put((idx << 1) | 1, &mut bytes);
+            put(gener as u64, &mut bytes);
+            bytes.extend(std::iter::repeat(0u8).take(self.r.below(3)));
+        }
         // varint extremes
         if self.r.chance(15) {
             bytes = vec![0xff, 0xff, 0xff, 0xff, 0xff, 0xff, 0xff, 0xff, 0xff, 0x01];
